@@ -127,7 +127,9 @@ func (c connector) Connect(context.Context) (driver.Conn, error) {
 
 type fakeDriver struct{}
 
-func (fakeDriver) Open(string) (driver.Conn, error) { return nil, errors.New("fake: use the connector") }
+func (fakeDriver) Open(string) (driver.Conn, error) {
+	return nil, errors.New("fake: use the connector")
+}
 
 type conn struct {
 	s    *script
@@ -314,20 +316,22 @@ func classify(err error, p plan) tr.E {
 		return tr.E{"kind": "nil", "i": 0}
 	}
 	var se stepErr
-	switch {
-	case errors.As(err, &se):
+	if errors.As(err, &se) {
 		return tr.E{"kind": "step", "i": se.i}
+	}
+	// an error that describes a step's panic may mention more (a failed rollback, say)
+	for k, s := range p.Steps {
+		if t := token(k+1, s); t != "" && strings.Contains(err.Error(), t) {
+			return tr.E{"kind": "panic", "i": k + 1}
+		}
+	}
+	switch {
 	case errors.Is(err, errBegin), errors.Is(err, errConnect):
 		return tr.E{"kind": "begin", "i": 0}
 	case errors.Is(err, errCommit):
 		return tr.E{"kind": "commit", "i": 0}
 	case errors.Is(err, errRollback):
 		return tr.E{"kind": "rollback", "i": 0}
-	}
-	for k, s := range p.Steps {
-		if t := token(k+1, s); t != "" && strings.Contains(err.Error(), t) {
-			return tr.E{"kind": "panic", "i": k + 1}
-		}
 	}
 	return tr.E{"kind": "other", "i": 0}
 }
@@ -544,8 +548,8 @@ func main() {
 	plans := flag.String("plans", "", "directory of TLC plans")
 	out := flag.String("out", "", "trace file")
 	seed := flag.Int64("seed", 1, "seed")
-	enumLen := flag.Int("enum", 3, "exhaustive enumeration: maximal number of steps")
-	enumFull := flag.Bool("full", false, "exhaustive enumeration over all step flavours")
+	enumLen := flag.Int("enum", 3, "exhaustive enumeration over 8 step variants: maximal number of steps")
+	enumFull := flag.Int("enumfull", 2, "same over all 14 step variants (flavours): maximal number of steps")
 	nrand := flag.Int("rand", 300, "number of random long plans")
 	maxLen := flag.Int("maxlen", 12, "maximal number of steps of a random plan")
 	flag.Parse()
@@ -565,7 +569,8 @@ func main() {
 			np++
 		}
 	}
-	ne := enumerate(w, rng, *enumLen, *enumFull)
+	ne := enumerate(w, rng, *enumLen, false)
+	ne += enumerate(w, rng, *enumFull, true)
 	for i := 0; i < *nrand; i++ {
 		runOne(w, rng, "rand", randPlan(rng, *maxLen))
 	}
